@@ -1240,6 +1240,11 @@ func (e *Engine) callFn(s *State, f *Frame, fn *ssa.Function, args []Val, bind [
 		all := Term{S: fmt.Sprintf("(forall ((%s %s)) %s)", q, ISort(), implies(and(ile(intT(0), qt), ilt(qt, a.Len)), eq(ea, eb)).S), Sort: "Bool"}
 		f.env[x] = e.name(s, and(eq(a.Len, b.Len), or(same, all)))
 		return true
+	case name == "vsWellFormed":
+		v := args[0].(SliceV)
+		lim := intBig(new(big.Int).Lsh(big.NewInt(1), 40))
+		f.env[x] = e.name(s, and(ile(intT(0), v.Off), ile(intT(0), v.Len), ile(v.Len, v.Cap), ile(v.Off, lim), ile(v.Cap, lim), app(">=", "Bool", v.Ref, refT(0)), or(refPos(v.Ref), eq(v.Cap, intT(0)))))
+		return true
 	case name == "vsSameMap":
 		f.env[x] = eq(args[0].(MapV).Ref, args[1].(MapV).Ref)
 		return true
@@ -1283,6 +1288,19 @@ func (e *Engine) callFn(s *State, f *Frame, fn *ssa.Function, args []Val, bind [
 		s.qfacts = s.qfacts[:q0]
 		s.quant--
 		f.env[x] = e.name(s, Term{S: fmt.Sprintf("(forall ((%s %s)) %s)", bv, ks, body.S), Sort: "Bool"})
+		return true
+	case name == "vsForallKey2": // one quantifier over two keys
+		m, cl := args[0].(MapV), args[1].(FuncV)
+		ks, _ := sortOf(m.K)
+		b1, b2 := "k!"+e.fresh("q"), "k!"+e.fresh("q")
+		var k1, k2 Val = Term{S: b1, Sort: ks}, Term{S: b2, Sort: ks}
+		if ks == "Str" {
+			k1, k2 = StrV{T: Term{S: b1, Sort: ks}}, StrV{T: Term{S: b2, Sort: ks}}
+		}
+		s.quant++
+		body := e.evalPure(s, cl.Fn, []Val{k1, k2}, cl.Bind).(Term)
+		s.quant--
+		f.env[x] = e.name(s, Term{S: fmt.Sprintf("(forall ((%s %s) (%s %s)) %s)", b1, ks, b2, ks, body.S), Sort: "Bool"})
 		return true
 	case name == "vsHas": // vsHas(m, k): key present, no value needed
 		f.env[x] = e.mread(s, args[0].(MapV), "p", "Bool", e.keyTerm(s, args[1]))
